@@ -7,6 +7,11 @@ Tie (harness/quad.cpp, which #includes net_model.cpp of the tree under test):
         model: EXACT when the C++ assembly raised no FE_INEXACT (dyadic class), relative 1e-5 otherwise;
         + the statement on the C++ output alone: weights*2 and *0.5 scale every triplet/rhs entry exactly (harness),
           M x - b = gradient of the documented objective at a test point for addBipoint/createStar(topo) (here)
+        + streams "coin" (ASM), "scoin" (SOLVE), "fcoin" (FASM) of harness/quad.cpp: EXACT coincidences of pin positions for the four
+          placement-based models (all pins of a net at one position, two coincident, on a fixed pin, ties at the min/max pin, distance
+          eps/2, eps, 2 eps, stacked cells, penalty target at the placement): the entries are decided by the floor weight / max(eps, dist)
+          that Quad.v and QuadFloat.v both contain; a non-finite entry of the C++ system (model finite) or a non-finite solver coordinate
+          is a violation with the case line
   SOLVE solveStar/solve/solveWithPenalty/solveB2B with all weights and strengths times 2, 1/4, 1024 (bitwise equal
         results) and times 2.5, 7 (within SOLVE_TOL of the coordinate span, anchored systems only)   [validated, not proved]
   PLACE Circuit::placeGlobal with weights and penalty.initialValue times 2, 1/2: every callback and the result equal;
@@ -14,7 +19,8 @@ Tie (harness/quad.cpp, which #includes net_model.cpp of the tree under test):
   FASM  the assembly at weights/strengths * 1 and * 2^k against the Flocq binary32 model coq/QuadFloat.v evaluated inside Coq
         (vm_compute), BIT FOR BIT; + the statement of c17_float_assembly_pow2_exact on the C++ output (side condition true in
         both runs => every triplet value and rhs entry is ldexp(original, k))
-  SOLVEK (measurement only) the range of k in which the solve is bitwise invariant under weights * 2^k."""
+  SOLVEK solve with weights/strengths * 2^k, k over the whole window in which the binary32 assembly is exactly scaled (fs_ok of the Flocq
+        model true in both runs): the solution must be bitwise the same (finding F22 on the unrepaired tree)."""
 import json
 import struct
 from fractions import Fraction
@@ -25,6 +31,7 @@ LEVEL = "proof"
 REL = Fraction(1, 100000)          # stated tolerance of the non-exact comparisons
 SOLVE_TOL = 5e-3                   # non-dyadic factors: |x_k - x_1| <= SOLVE_TOL * span (measured max over 5.4e5 comparisons: 3.6e-4)
 REG = Fraction(11258999, 1 << 50)  # 1.0e-8f
+N_COIN_Q, N_SCOIN_Q, N_FCOIN_Q = 1500, 400, 40   # quick-tier sizes of the exact-coincidence streams (ASM, SOLVE, FASM lines)
 
 
 # ---------------------------------------------------------------- parsing
@@ -75,9 +82,26 @@ def netmodel_pins(b):
     return out
 
 
+NONFINITE = ("nan", "inf", "-inf", "huge")      # printed by harness/quad.cpp showf for NaN, +-infinity and values above 2^62
+
+
 def fr_impl(s):
     n, e = s.split()
+    if n in NONFINITE:
+        return n
     return Fraction(int(n), 1 << int(e))
+
+
+def first_nonfinite(isys):
+    """(description, key) of the first matrix / rhs / initial entry of the C++ system that is not a finite number of moderate size, or None"""
+    for r, c, v in isys["trips"]:
+        if isinstance(v, str):
+            return "matrix entry (%d, %d) = %s" % (r, c, v), ("trips", (r, c))
+    for name in ("rhs", "init"):
+        for i, v in enumerate(isys[name]):
+            if isinstance(v, str):
+                return "%s[%d] = %s" % ("rhs" if name == "rhs" else "initial", i, v), (name, i)
+    return None
 
 
 def fr_model(s):
@@ -216,6 +240,52 @@ def anchored(b):
     return all(find(c) == find(b["nc"]) for c in range(b["nc"]))
 
 
+def f32(x):
+    return struct.unpack("<f", struct.pack("<f", x))[0]
+
+
+def coincidences(b):
+    """classes of EXACT coincidence present in a placement-based case (modes 1..4): pin positions are the binary32 values pl[c] + offset
+    (binary64 sum rounded once to binary32 = the correctly rounded binary32 sum) and are compared bit for bit"""
+    out = set()
+    if not 1 <= b["mode"] <= 4 or len(b["pl"]) < b["nc"]:
+        return out
+    pl = [float(p) for p in b["pl"]]
+    eps = float(b["eps"])
+    for _, pins in netmodel_pins(b):
+        pos = [f32((pl[c] if c >= 0 else 0.0) + float(o)) for c, o in pins]
+        groups = {}
+        for (c, _), x in zip(pins, pos):
+            groups.setdefault(x, []).append(c)
+        deg = "3plus" if len(pins) >= 3 else "2pin"
+        if len(groups) == 1:
+            out.add("all_pins_of_a_%s_net_%s" % (deg, "with_fixed_pin" if any(c < 0 for c, _ in pins) else "movable_only"))
+        elif len(groups) < len(pins):
+            for x, cs in groups.items():
+                if len(cs) > 1:
+                    out.add("some_pins_%s" % ("with_fixed_pin" if any(c < 0 for c in cs) else "movable_only"))
+                    if x in (min(pos), max(pos)):
+                        out.add("tie_at_the_min_or_max_pin")
+        ds = [abs(x - y) for i, x in enumerate(pos) for y in pos[i + 1:]]
+        if any(0 < d < eps for d in ds):
+            out.add("distance_below_epsilon")
+        if any(d == eps for d in ds):
+            out.add("distance_equal_to_epsilon")
+    if b["pen"] and any(t == p for (t, _), p in zip(b["pen"][1], b["pl"])):
+        out.add("penalty_target_at_the_placement")
+    return out
+
+
+def count_coincidences(stats, b, l):
+    cs = coincidences(b)
+    d = stats.setdefault("coincidences", {}).setdefault(["", "B2B", "Star", "Clique", "LightStar"][b["mode"]] if 1 <= b["mode"] <= 4 else "other", {})
+    for c in cs:
+        d[c] = d.get(c, 0) + 1
+    if any(c.startswith("all_pins_of_a_3plus") for c in cs):
+        stats.setdefault("collapsed", set()).add(l)
+    return cs
+
+
 # ---------------------------------------------------------------- binary32 tie (Flocq model coq/QuadFloat.v, theorem c17_float_*)
 # FASM: the underflow witness of QuadFloatProofs.fassembly_underflow_witness (one cell, net {cell 0, fixed pin at 0.375}, weight
 # (2^23+1) 2^-23, k = -126, addBipoint): the scaled right-hand side is NOT 2^-126 times the original one
@@ -298,7 +368,7 @@ def gal_list(xs):
     return "[" + "; ".join(xs) + "]"
 
 
-def gal_sys(b, nets, strengths):
+def gal_sys(b, nets, strengths, wrap="fsys_dump (ffinalize (%s))"):
     nm = "(fbuild_nm %d%%nat %s)" % (b["nc"], gal_list(
         "(%s, %s)" % (gal_f(w), gal_list("((%d), %s)" % (c, gal_f(o)) for c, o in pins)) for w, pins in nets))
     mode = b["mode"]
@@ -312,7 +382,7 @@ def gal_sys(b, nets, strengths):
     if b["pen"]:
         cut, ts = b["pen"]
         s = "fadd_penalty %s %s %s %s (%s)" % (pl, gal_list(gal_f(t) for t, _ in ts), gal_list(gal_f(x) for x in strengths), gal_f(cut), s)
-    return "fsys_dump (ffinalize (%s))" % s
+    return wrap % s
 
 
 def parse_dump(txt):
@@ -337,15 +407,21 @@ def parse_fasm_impl(txt):
             "rhs": hx(p[2]), "init": hx(p[3]), "w": hx(p[4])}
 
 
-def float_tie(ctx, harness, count, diffs, concrete, only=None):
+def nonfinite_bits(u):
+    return u is None or (u >> 23) & 0xFF == 0xFF
+
+
+def float_tie(ctx, harness, count, diffs, concrete, only=None, ccount=0):
     """the assembly of the compiled library against the Flocq binary32 model evaluated inside Coq by vm_compute, bit for bit, at
     weights/strengths * 1 and * 2^k; and the statement of c17_float_assembly_pow2_exact on the C++ output"""
-    lines = only or [FASM_WITNESS] + common.corpus("C17", ("FASM ",)) + common.harness_gen(harness, ["fasm", ctx.seed, count])
+    lines = only or ([FASM_WITNESS] + common.corpus("C17", ("FASM ",)) + common.harness_gen(harness, ["fasm", ctx.seed, count])
+                     + (common.harness_gen(harness, ["fcoin", ctx.seed, ccount]) if ccount else []))
     impl, _, _ = common.run_both([harness, "run"], None, lines)
     info = {"cases": len(lines), "values_compared_bit_for_bit": 0, "cases_equal_bit_for_bit": 0, "scaled_weight_not_a_binary32_number": 0,
             "side_condition_true_in_both_runs": 0, "of_which_scaled_exactly_on_the_cpp": 0, "side_condition_false": 0,
             "side_condition_false_and_cpp_not_scaled_exactly": 0, "witness_reproduced": False, "flags": FLOAT_FLAGS,
-            "modes": {}, "samples": lines[1:3]}
+            "modes": {}, "samples": lines[1:3] + lines[-1:], "exact_coincidence_cases_fcoin_stream": ccount, "coincidences": {},
+            "cases_with_a_collapsed_3plus_pin_net": 0, "cpp_nonfinite_where_model_finite": 0}
     todo, exprs = [], []
     for l, out in zip(lines, impl):
         t = l.split()
@@ -364,16 +440,36 @@ def float_tie(ctx, harness, count, diffs, concrete, only=None):
         exprs.append(gal_sys(b, nets, st))
         exprs.append(gal_sys(b, [(w * f, p) for w, p in nets], [s * f for s in st]))
         info["modes"][b["mode"]] = info["modes"].get(b["mode"], 0) + 1
+        count_coincidences(info, b, l)
     res = common.vm_eval("C17f", "From Coq Require Import List ZArith. From Flocq Require Import Core BinarySingleNaN. Import ListNotations. "
                                  "Require Import CV.Quad CV.QuadFloat. Local Open Scope Z_scope.", exprs, timeout=1500) if exprs else []
     if res is None:
         diffs.append((lines[0], "vm_compute evaluation of the binary32 model (QuadFloat.fsys_dump) failed", "", False))
+        info.pop("collapsed", None)
         return info
     for j, (l, k, b, runs) in enumerate(todo):
         mods = [parse_dump(res[2 * j]), parse_dump(res[2 * j + 1])]
         if None in mods:
             diffs.append((l, "binary32 model output not understood: " + res[2 * j][:120], "", False)); continue
         bad = None
+        # a value of the C++ system that is infinite or NaN where the binary32 model of the assembly, on the same finite inputs, computes
+        # only finite values (no overflow anywhere): a real violation with this case as the failing input
+        nf = None
+        for name, r, m in (("weights*1", runs[0], mods[0]), ("weights*2^%d" % k, runs[1], mods[1])):
+            if nf is None and not any(nonfinite_bits(u) for key in ("vals", "rhs", "init") for u in m[key]):
+                for key in ("vals", "rhs", "init"):
+                    i = next((i for i, u in enumerate(r[key]) if nonfinite_bits(u)), None)
+                    if i is not None and nf is None:
+                        at = "matrix entry (%d, %d)" % r["rc"][i] if key == "vals" and i < len(r["rc"]) else "%s[%d]" % (key, i)
+                        mv = m[key][i] if i < len(m[key]) else None
+                        nf = ("%s: %s has bits %s (infinite or NaN) although every input is finite; the Flocq binary32 model of the assembly "
+                              "(QuadFloat.v: net weight / max(epsilon, distance)) computes only finite values for this case, here %s"
+                              % (name, at, "NaN" if r[key][i] is None else "%08x" % r[key][i],
+                                 "bits %08x = %r" % (mv, floats("%x" % mv)[0]) if mv is not None else "no such entry"))
+        if nf:
+            info["cpp_nonfinite_where_model_finite"] += 1
+            concrete.append((l, "the assembled system has a non-finite value: " + nf, impl[lines.index(l)][:300]))
+            continue
         for name, r, m in (("weights*1", runs[0], mods[0]), ("weights*2^%d" % k, runs[1], mods[1])):
             for key in ("rc", "vals", "rhs", "init"):
                 if r[key] != m[key]:
@@ -395,6 +491,8 @@ def float_tie(ctx, harness, count, diffs, concrete, only=None):
                  and all(c["vals"][i] == f32_ldexp_exact(a["vals"][i], k) for i in range(pre))
                  and a["vals"][pre:] == c["vals"][pre:]
                  and all(c["rhs"][i] == f32_ldexp_exact(a["rhs"][i], k) for i in range(len(a["rhs"]))))
+        if l in info.get("collapsed", ()):
+            info["cases_with_a_collapsed_3plus_pin_net"] += 1
         if mods[0]["ok"] and mods[1]["ok"]:
             info["side_condition_true_in_both_runs"] += 1
             if exact:
@@ -409,33 +507,72 @@ def float_tie(ctx, harness, count, diffs, concrete, only=None):
                 info["side_condition_false_and_cpp_not_scaled_exactly"] += 1
                 if l == FASM_WITNESS:
                     info["witness_reproduced"] = True
+    info.pop("collapsed", None)
     return info
 
 
-# the conjugate gradient is NOT modelled; measured only (never a violation): for which common factors 2^k the solve is bitwise invariant.
-# Eigen's kernel compares |r|^2 with max(tol^2 |b|^2, FLT_MIN) and computes |b|^2, r.z, p.Ap in binary32: scaling (A, b) by 2^k scales these
-# by 4^k, so the window of exactness of the SOLVE is about half as wide (in k) as the one of the assembly.  Witness (one cell, net to two
-# fixed pins, tolerance 1e-4): at k = -64 the threshold is clamped to FLT_MIN and the solver returns its initial guess 0 instead of 68.17
-CG_WITNESS = "SOLVEK -64 3 13743895 37 580 2 1 31571 12 1 1 478451 17 0 9639 9 1 87 0 87 0 1 -87695 10 0"
+# The conjugate gradient is NOT modelled.  Gating stream SOLVEK: every weight and penalty strength times 2^k, for k over the whole window in
+# which the binary32 assembly is exactly scaled (side condition fs_ok of c17_float_assembly_pow2_exact true in both runs, evaluated on the
+# Flocq model inside Coq): there the solver receives (A + D, b, x0) and (2^k A + D, 2^k b, x0) bitwise and the property demands the same
+# solution, bit for bit.  Finding F22: Eigen's kernel compares |r|^2 with max(tol^2 |b|^2, FLT_MIN) and computes |b|^2, |r|^2 in binary32,
+# so the unrepaired MatrixCreator::solve is exact only for about -44 <= k <= 52 on this distribution; the repair normalises (A, b) by a power
+# of two.  Witness (corpus/C17): one cell, net to two fixed pins, tolerance 1e-4, k = -64: the solver returns its initial guess 0, not 68.17.
+SOLVEK_KS = (-112, -96, -80, -64, -48, -30, 30, 48, 64, 80, 96, 112)
 
 
-def cg_window(harness, solve_lines):
-    ks = (-30, 30, -64, 64)
-    cases = [CG_WITNESS] + ["SOLVEK %d %s" % (k, l.split(" ", 1)[1]) for l in solve_lines for k in ks]
+def check_solvek(ctx, harness, solve_lines, per_line, stats, only=None):
+    """returns (violations with concrete input [(case, why)], statistics)"""
+    cases = list(only or common.corpus("C17", ("SOLVEK ",)))
+    for i, l in enumerate(solve_lines):
+        body = l.split(" ", 1)[1]
+        cases += ["SOLVEK %d %s" % (SOLVEK_KS[(i + j * len(SOLVEK_KS) // per_line) % len(SOLVEK_KS)], body) for j in range(per_line)]
     impl, _, _ = common.run_both([harness, "run"], None, cases, chunk=200)
-    info = {"solve_cases": len(solve_lines), "note": "measurement, not a verdict: weights and strengths times 2^k, result compared bitwise with k = 0"}
-    for k in ks:
-        info["bitwise_equal_at_2^%d" % k] = 0
-    for c, out in zip(cases, impl):
+    info = {"cases": len(cases), "gated_side_condition_true_in_both_runs": 0, "of_which_bitwise_equal": 0, "not_gated": 0,
+            "note": "per k: [gated, bitwise different among the gated, not gated (fs_ok false or scaled weight not a binary32 number)]", "per_k": {}}
+    exprs, index, parsed = [], {}, []
+    for c in cases:
+        t = c.split()
+        k = int(t[1])
+        r = RdF(t[2:]); r.nx(); r.q(); r.nx()                      # kind tol maxit
+        b = read_body(r)
+        nets = netmodel_pins(b)
+        st = [x for _, x in b["pen"][1]] if b["pen"] else []
+        f = Fraction(2) ** k
+        ok = not (any(f32_encode(w * f) is None for w, _ in nets) or any(f32_encode(x * f) is None for x in st))
+        keys = []
+        for fac in ((Fraction(1), f) if ok else ()):
+            e = gal_sys(b, [(w * fac, p) for w, p in nets], [x * fac for x in st], wrap="fs_ok (%s)")
+            if e not in index:
+                index[e] = len(exprs); exprs.append(e)
+            keys.append(index[e])
+        parsed.append((k, keys))
+    res = common.vm_eval("C17k", "From Coq Require Import List ZArith. From Flocq Require Import Core BinarySingleNaN. Import ListNotations. "
+                                 "Require Import CV.Quad CV.QuadFloat. Local Open Scope Z_scope.", exprs, timeout=1500) if exprs else []
+    bad = []
+    if res is None:
+        info["error"] = "vm_compute evaluation of fs_ok failed: nothing gated"
+        return bad, info
+    for c, out, (k, keys) in zip(cases, impl, parsed):
+        pk = info["per_k"].setdefault(str(k), [0, 0, 0])
         p = out.split(" | ")
         if len(p) != 2:
+            bad.append((c, "solver did not return: " + out[:200])); continue
+        if len(keys) != 2 or res[keys[0]] != "true" or res[keys[1]] != "true":
+            info["not_gated"] += 1; pk[2] += 1
             continue
-        if c == CG_WITNESS:
-            info["witness_k=-64"] = {"case": c, "x_at_factor_1": floats(p[0]), "x_at_factor_2^-64": floats(p[1])}
-        elif p[0] == p[1]:
-            info["bitwise_equal_at_2^%d" % int(c.split()[1])] += 1
-    return info
-
+        info["gated_side_condition_true_in_both_runs"] += 1; pk[0] += 1
+        if p[0] == p[1]:
+            info["of_which_bitwise_equal"] += 1
+            continue
+        pk[1] += 1
+        if abs(k) >= 40 and ctx.known_finding("F22"):
+            continue
+        x1, xk = floats(p[0]), floats(p[1])
+        j = next((j for j in range(min(len(x1), len(xk))) if p[0].split()[j] != p[1].split()[j]), 0)
+        bad.append((c, "solution changes when every weight and penalty strength is multiplied by 2^%d although the assembled system is exactly the "
+                       "original one times 2^%d (no overflow, no subnormal intermediate: fs_ok true in both runs): x[%d] = %r vs %r"
+                       % (k, k, j, x1[j] if j < len(x1) else None, xk[j] if j < len(xk) else None)))
+    return bad, info
 
 # ---------------------------------------------------------------- run
 def check_asm(ctx, lines, impl, model, stats):
@@ -458,7 +595,20 @@ def check_asm(ctx, lines, impl, model, stats):
             stats["with_fractional_weight"] += 1
         if len(nets) and any(len({c for c, _ in p}) > 1 for _, p in nets):
             stats["nontrivial"].add(l)
+        count_coincidences(stats, b, l)
         why = None
+        nf = first_nonfinite(isys)
+        if nf:
+            want = "not available"
+            if " ## " in m:
+                msys = parse_sys(m.split(" ## ")[0], fr_model)
+                kind, key = nf[1]
+                v = canon(msys["trips"]).get(key) if kind == "trips" else (msys[kind][key] if key < len(msys[kind]) else None)
+                want = "%s (= %r)" % (v, float(v)) if v is not None else "no such entry"
+            concrete.append((l, "the assembled system has a non-finite value although every weight, offset, position and distance of the case is finite: %s; "
+                                "the exact model over Q of the assembly (net weight / max(epsilon, distance), Quad.v; duplicate triplets summed) gives %s: the pull of the net is "
+                                "not proportional to its weight and the solve returns NaN" % (nf[0], want), i[:300]))
+            continue
         if h != "OK":
             why = "homogeneity of the assembled system fails on the C++: " + h
         elif b["mode"] in (0, 5):
@@ -495,6 +645,13 @@ def check_solve(lines, impl, stats):
             bad.append((l, "solver did not return: " + i[:200])); continue
         base = parts[0]
         stats["solve_kind%d" % kind] = stats.get("solve_kind%d" % kind, 0) + 1
+        if count_coincidences(stats.setdefault("solve_stream", {}), b, l):
+            stats["solve_with_exact_coincidence"] = stats.get("solve_with_exact_coincidence", 0) + 1
+        j = next((j for j, h in enumerate(base.split()) if nonfinite_bits(int(h, 16))), None)
+        if j is not None:
+            bad.append((l, "the solver returns a non-finite coordinate although every weight, strength, offset and position of the case is finite: "
+                           "x[%d] has bits %s (%r)" % (j, base.split()[j], floats(base.split()[j])[0])))
+            continue
         for f, p in zip((2, 0.25, 1024, "2^-20", "2^-24"), parts[1:4] + parts[6:8]):
             if p != base:
                 x1, xk = floats(base), floats(p)
@@ -578,6 +735,9 @@ def run(ctx):
         asm += common.harness_gen(harness, ["asm", s, (4000 if q else 60000) // len(seeds)])
         solve += common.harness_gen(harness, ["solve", s, (1500 if q else 30000) // len(seeds)])
         place += common.harness_gen(harness, ["place", s, (40 if q else 600) // len(seeds)])
+        # exact coincidences of pin positions (all pins of a net at one position, two coincident, on a fixed pin, stacked cells), models 1..4
+        asm += common.harness_gen(harness, ["coin", s, (N_COIN_Q if q else 30000) // len(seeds)])
+        solve += common.harness_gen(harness, ["scoin", s, (N_SCOIN_Q if q else 9000) // len(seeds)])
     stats = {"exact": 0, "toleranced": 0, "with_fractional_weight": 0, "nontrivial": set(), "solve_nondyadic_compared": 0,
              "solve_max_rel_dev": 0.0, "place": 0, "place_max_dev": 0}
     impl, model, _ = common.run_both([harness, "run"], [driver], asm, chunk=250)
@@ -587,8 +747,9 @@ def run(ctx):
     pimpl, _, _ = common.run_both([harness, "run"], None, place, chunk=3)
     pbad = check_place(place, pimpl, stats)
     fdiffs, fconcrete = [], []
-    finfo = float_tie(ctx, harness, 60 if q else 600, fdiffs, fconcrete)
-    cginfo = cg_window(harness, solve[:(30 if q else 300)])
+    finfo = float_tie(ctx, harness, 60 if q else 600, fdiffs, fconcrete, ccount=N_FCOIN_Q if q else 400)
+    kbad, cginfo = check_solvek(ctx, harness, [l for l in solve if l.startswith("SOLVE ")][:(20 if q else 300)], 6 if q else 12, stats)
+    sbad += kbad
     concrete += fconcrete
     diffs += fdiffs
 
@@ -611,6 +772,8 @@ def run(ctx):
     nf12 = sum(1 for d in diffs if d[3])
     cov = dict(proof)
     nontriv = stats.pop("nontrivial")
+    collapsed = stats.pop("collapsed", set())
+    stats.get("solve_stream", {}).pop("collapsed", None)
     cov.update({"trusted_base": common.TRUSTED_BASE + [
                     "Eigen's conjugate gradient and all single-precision arithmetic are not modelled: the solver clauses (bitwise invariance under 2^k, "
                     "tolerance under 2.5 and 7) are VALIDATED by the runs of this check, not proved",
@@ -622,7 +785,15 @@ def run(ctx):
                 "evaluations": len(asm) + len(solve) + len(place),
                 "distinct_nontrivial": len(nontriv),
                 "rule": "ASM case lines (distinct) with at least one net joining two different cells/fixed pins; all seven assembly entry points "
-                        "(createStar(topo), B2B, Star, Clique, LightStar with placement, addBipoint, addClique), with and without addPenalty",
+                        "(createStar(topo), B2B, Star, Clique, LightStar with placement, addBipoint, addClique), with and without addPenalty. "
+                        "EXACT coincidences (binary32 pin positions pl[c] + offset equal bit for bit; measured per net model in distribution."
+                        "coincidences and binary32_tie.coincidences): all pins of a net of >= 3 pins / of 2 pins at one position, with and without a "
+                        "fixed pin; some pins coincident (with a fixed pin or movable only; tie at the min/max pin); distances below and exactly at "
+                        "epsilon; penalty target at the placement.  On these the entries are fixed by the floor net weight / max(epsilon, distance) "
+                        "of Quad.v (over Q) and QuadFloat.v (Flocq binary32): compared exactly / within 1e-5 (ASM) and bit for bit (FASM); an "
+                        "infinite or NaN entry of the C++ system where the model is finite, and a non-finite solver coordinate, are violations "
+                        "with the case line",
+                "asm_cases_with_all_pins_of_a_3plus_pin_net_coincident": len(collapsed),
                 "samples": [asm[0][:300], asm[len(asm) // 2][:300], solve[0][:300], place[0][:300]],
                 "distribution": stats,
                 "asm_cases": len(asm), "solve_cases": len(solve), "place_cases": len(place),
@@ -631,13 +802,14 @@ def run(ctx):
                 "impl_outputs_violating_statement": len(concrete) + len(sbad) + len(pbad)})
     return ctx.finish(LEVEL, cov, [
         "domain: finite float inputs of moderate size (|coordinates| <= 100, weights in [1/32, 12], approximation and cutoff distances >= 0.1, "
-        "CG tolerance in [1e-6, 1e-4]); no overflow/underflow",
+        "CG tolerance in [1e-6, 1e-4]); no overflow/underflow; pin positions may coincide exactly (distance 0: the epsilon floor decides the entry)",
         "solver invariance is validated on %d SOLVE and %d PLACE cases (bitwise for 2^k; %g of the span for 2.5 and 7 on anchored systems; "
         "placeGlobal: only the first lower-bound placement is compared for non-dyadic factors, later steps take discrete decisions)" % (len(solve), len(place), SOLVE_TOL),
         "power-of-two clause: PROVED for the assembly in binary32 under the side condition fs_ok (no overflow, no rounded intermediate at or below "
-        "2^-126) in both runs; for the conjugate gradient (not modelled) it is validated by the SOLVE/PLACE runs for factors 2^-24 .. 2^10 and "
-        "measured (cg_scale_window_measured) beyond: Eigen's absolute threshold FLT_MIN and its binary32 squared norms limit the exactness of "
-        "the solve to about |k| <= 44 on this distribution",
+        "2^-126) in both runs; for the conjugate gradient (not modelled) it is VALIDATED by the SOLVE/PLACE runs (factors 2^-24 .. 2^10) and by the "
+        "SOLVEK runs for k over the whole window in which fs_ok holds in both runs (cg_scale_window_measured); finding F22: without the "
+        "normalisation of (A, b) in MatrixCreator::solve, Eigen's absolute threshold FLT_MIN and its binary32 squared norms limit the exactness "
+        "of the solve to about -44 <= k <= 52",
         "model tied to the code by comparison on the cases of this run"])
 
 
@@ -668,6 +840,12 @@ def replay(ctx, path):
         for _, d, _, _ in fdiffs:
             print("model/impl difference:", d)
         return 1 if fconcrete or fdiffs else 0
+    if tag == "SOLVEK":
+        bad, info = check_solvek(ctx, harness, [], 1, stats, only=[case])
+        print("SOLVEK:", {k: v for k, v in info.items() if k != "note"})
+        for _, why in bad:
+            print("violation:", why)
+        return 1 if bad else 0
     impl, _, _ = common.run_both([harness, "run"], None, [case])
     print("impl :", impl[0][:2000])
     bad = check_solve([case], impl, stats) if tag == "SOLVE" else check_place([case], impl, stats)
